@@ -404,6 +404,107 @@ fn conc_case(case: u64, rng: &mut Rng, st: &mut Stats, budget: u64, three: bool)
     });
 }
 
+// ---------------------------------------------------------------------------------------------
+// OS threads: writers on different threads contend for one value of a unique field. The async
+// schedules above interleave at backend calls only; the index's own "check, then claim" window
+// is synchronous code, which only real threads (with seeded yields at the verif hook points of
+// the B-tree crate) can overlap.
+
+fn threads_case(case: u64, rng: &mut Rng, st: &mut Stats, rounds: usize) {
+    let cfg = Cfg { cache: rng.bool(), compress: 0, bucket: *rng.pick(&[64usize, 1 << 20]) };
+    let n_threads = 2 + (case % 2) as usize;
+    let store = Arc::new(object_store::memory::InMemory::new());
+    let (coll, _db) = match block_on(async {
+        let db = v_db::connect(store.clone(), &cfg).await?;
+        let c = v_db::open_coll(&db, IndexSet::ALL).await?;
+        Ok::<_, anda_db::error::DBError>((c, db))
+    }) {
+        Ok(x) => x,
+        Err(e) => {
+            st.inconclusive(format!("C04 threads: setup failed: {e:?}"));
+            return;
+        }
+    };
+    let mut model = Model::default();
+    for round in 0..rounds {
+        // which unique constraint is contested this round: scalar, array member (first / last of a
+        // longer array), composite
+        let kind = (round + case as usize) % 4;
+        let v = format!("v{case}-{round}");
+        let docs: Vec<FDoc> = (0..n_threads)
+            .map(|t| {
+                let mut d = gen_doc(rng, 1 << 40);
+                d.uname = format!("own{case}-{round}-{t}");
+                d.codes = (0..(3 + rng.usize(40))).map(|j| format!("p{case}-{round}-{t}-{j}")).collect();
+                d.grp = format!("g{case}-{round}-{t}");
+                d.slot = round as u64;
+                match kind {
+                    0 => d.uname = v.clone(),
+                    1 => d.codes.insert(0, v.clone()),
+                    2 => d.codes.push(v.clone()),
+                    _ => {
+                        d.grp = v.clone();
+                        d.slot = 7;
+                    }
+                }
+                d
+            })
+            .collect();
+        let barrier = Arc::new(std::sync::Barrier::new(n_threads));
+        let seed = rng.next_u64();
+        let results: Vec<Result<u64, String>> = std::thread::scope(|s| {
+            let hs: Vec<_> = docs
+                .iter()
+                .enumerate()
+                .map(|(t, d)| {
+                    let (coll, barrier, d) = (coll.clone(), barrier.clone(), d.clone());
+                    s.spawn(move || {
+                        vcore::sched::enable_stress(seed ^ ((t as u64) << 32), 2);
+                        barrier.wait();
+                        let r = block_on(async { coll.add_from(&d).await }).map_err(|e| format!("{e:?}"));
+                        vcore::sched::disable_stress();
+                        r
+                    })
+                })
+                .collect();
+            hs.into_iter().map(|h| h.join().unwrap_or_else(|_| Err("thread panicked".into()))).collect()
+        });
+        st.eval();
+        st.count("thread_rounds");
+        st.count(&format!("thread_round_kind_{kind}"));
+        let winners: Vec<(usize, u64)> = results.iter().enumerate().filter_map(|(t, r)| r.as_ref().ok().map(|id| (t, *id))).collect();
+        let contested = ["uname", "codes[0]", "codes[last]", "grp+slot"][kind];
+        let ctx = |extra: serde_json::Value| json!({"case": case, "round": round, "contested": contested, "value": v,
+            "threads": n_threads, "results": results.iter().map(|r| format!("{r:?}")).collect::<Vec<_>>(), "extra": extra});
+        for (t, r) in results.iter().enumerate() {
+            if let Err(e) = r {
+                if !e.contains("AlreadyExists") {
+                    st.violation("C04/threads/unexpected_error", ctx(json!({"thread": t, "error": e})));
+                    return;
+                }
+            }
+        }
+        if winners.len() > 1 {
+            st.violation("C04/threads/two_writers_acknowledged_for_one_unique_value", ctx(json!({"winners": winners})));
+            return;
+        }
+        st.count(if winners.len() == 1 { "thread_rounds_with_one_winner" } else { "thread_rounds_with_no_winner" });
+        for (t, id) in &winners {
+            let mut d = docs[*t].clone();
+            d._id = *id;
+            model.docs.insert(*id, d);
+        }
+        // losers left no trace, the winner owns the value: full audit every few rounds
+        if round % 8 == 7 || round + 1 == rounds {
+            let ok = block_on(audit(&coll, &model, IndexSet::ALL, st, &AuditCtx { sig: "C04/threads/after_race", ctx: &|| ctx(json!(null)) }));
+            st.count("thread_audits");
+            if !ok {
+                return;
+            }
+        }
+    }
+}
+
 fn main() {
     let mut run = Run::from_args(
         "C04",
@@ -423,12 +524,19 @@ fn main() {
         run.parallel("conc2", t.pick(48, 2000), 0.4, |c, rng, st| conc_case(c, rng, st, t.pick(150, 1500), false));
         run.parallel("conc3", t.pick(16, 600), 0.5, |c, rng, st| conc_case(c, rng, st, t.pick(150, 1500), true));
     }
+    if run.wants("threads") {
+        anda_db_utils::verif::set_hook(Some(vcore::sched::hook));
+        run.parallel("threads", t.pick(32, 1200), 0.3, |c, rng, st| threads_case(c, rng, st, t.pick(40, 120)));
+        anda_db_utils::verif::set_hook(None);
+    }
     if run.wants("crash") {
         v_db::crash::set_prefix("C04/crash");
         v_db::crash::set_contentions(&[3, 4, 5]);
         run.parallel("crash", t.pick(18, 600), 0.95, |c, rng, st| v_db::crash::case(c, rng, st, t));
     }
     run.floor("audits_after_rejected_write", 1000);
+    run.floor("thread_rounds_with_one_winner", 500);
+    run.floor("thread_audits", 50);
     for c in [Reject::Conflict, Reject::Schema, Reject::UnknownField, Reject::Missing, Reject::BadVector] {
         run.floor(&format!("rejected_class:{c:?}"), 20);
     }
